@@ -12,7 +12,7 @@ Empty == {}
 LineOK ==
   LET t == Ev.tree f == Ev.failAt IN
   /\ "panic" \notin DOMAIN Ev
-  /\ Ev.walk.log = WalkLog(t, Ev.list, Ev.stopK)
+  /\ Ev.walk.log = EmptyAs(t, WalkLog(t, Ev.list, Ev.stopK))
   /\ Ev.walk.stopped = WalkResult(t, Ev.list, Ev.stopK)
   /\ (~Ev.list /\ Ev.stopK = 0) =>
        LET tl == TransformLog(t, f, 1) el == EvalLog(t, f, 1) IN
